@@ -113,6 +113,7 @@ def run_edge(spec, position, edge, variant=0, pool=None, missing=False, builtin=
         return problems
 
     res = spec.new_resource()
+    res2 = None
     try:
         root0 = wrap(position, pre_py)
         if not missing:
@@ -124,7 +125,14 @@ def run_edge(spec, position, edge, variant=0, pool=None, missing=False, builtin=
         wc0 = res.write_count()
         if "nowrite" in want and is_read:
             audit_start()
-        obs = realize.perform(target, lab, variant, pool)
+        args = None
+        if variant >= 100:
+            # the comparison operand is itself a synced collection of the same class (root or nested alike)
+            variant -= 100
+            res2 = spec.new_resource()
+            res2.write_raw(copy.deepcopy(wrap(position, val.to_py(lab["x"], pool))))
+            args = {("given", "x"): navigate(res2.new_object(), position)}
+        obs = realize.perform(target, lab, variant, pool, args=args)
         events = audit_stop() if ("nowrite" in want and is_read) else {}
         raw = res.read_raw()
         matched = [o for o in outs if realize.matches(obs, o["ret"], pool)[0]]
@@ -170,6 +178,17 @@ def run_edge(spec, position, edge, variant=0, pool=None, missing=False, builtin=
         return problems
     finally:
         res.dispose()
+        if res2 is not None:
+            res2.dispose()
+
+
+CMP_OPS = ("eq", "ne", "lt", "le", "gt", "ge")
+
+
+def synced_operand_possible(edge):
+    """Comparison with an operand of the same container kind: the operand may itself be a synced collection."""
+    lab = edge["lab"]
+    return lab["op"] in CMP_OPS and lab.get("x", {}).get("t") == edge["pre"]["t"]
 
 
 _READS = None
